@@ -357,6 +357,8 @@ class Fresh:
             o = np.array(en.obj, copy=True)
         elif k == "basis":
             o = build_basis(en.meta["spec"], live=en.obj)
+        elif k == "closure":
+            o = run_op({"op": "make_closure", "args": [en.meta["src"]], "p": {"which": en.meta["which"]}}, self.get, self.W, None)
         elif k == "data":
             o = [(int(n), np.array(p, copy=True)) for n, p in en.obj]
         elif k == "qt":
@@ -639,6 +641,8 @@ UNARY = {
     # ensembles / distributions
     "ensemble_state": (("ensemble",), lambda o, p: o.state(pick(p["i"], len(o.states)))),
     "dist_marginalize": (("dist",), lambda o, p: o.marginalize([pick(p["i"], len(o.shape))])),
+    "dist_marginalize_all": (("dist",), lambda o, p: o.marginalize(
+        list(range(len(o.shape))) if p["i"] % 2 else list(reversed(range(len(o.shape)))))),
     "dist_conditionalize": (("dist",), lambda o, p: o.conditionalize([0], [pick(p["i"], o.shape[0])])),
     "dist_getitem": (("dist",), lambda o, p: o[pick(p["i"], o.ps.size)]),
     "dist_sampling": (("dist",), lambda o, p: o.execute_random_sampling(3 + p["i"] % 5, 2, random_generator=_seed(p))),
@@ -723,6 +727,21 @@ def run_op(op, get, W, atol_state):
         if which == 1:
             return matrix_util.calc_covariance_mat(matrix_util.replace_prob_dist(v), 10 + p["i"] % 90)
         return matrix_util.calc_covariance_mat(v, 10 + p["i"] % 90)
+    if k == "make_closure":
+        o = get(a[0])
+        which = p["which"]
+        if which == "eq":
+            return o.func_calc_proj_eq_constraint_with_var(o.on_para_eq_constraint)
+        if which == "ineq":
+            return o.func_calc_proj_ineq_constraint_with_var(o.on_para_eq_constraint)
+        return o.func_calc_proj_physical_with_var(o.on_para_eq_constraint, max_iteration=20)
+    if k == "call_closure":
+        f, o = get(a[0]), get(a[1])
+        v = np.array(o.to_var(), dtype=np.float64, copy=True)
+        tiny = [2.7e-7, -3e-10, 4e-5, 3e-12]
+        for j in range(min(3, v.size)):
+            v[(p["i"] + 5 * j) % v.size] += tiny[(p["i"] + j) % 4]
+        return f(v)
     if k == "derive_roundtrip":
         o = get(a[0])
         return o.generate_from_var(o.to_var() if p["i"] % 2 else o.to_var().copy())
@@ -858,6 +877,12 @@ def init_specs(g, tier_quick):
     # a joint distribution of two variables and an ensemble of two states
     w = g.integers(1, 30, size=6).astype(float)
     add("dist0", "dist", {"kind": "dist", "ps": w / w.sum(), "shape": (2, 3), "eps_zero": 1e-8})
+    # a distribution with a non-default zero threshold and an entry between that threshold and the default one
+    w2 = g.integers(1, 30, size=4).astype(float)
+    p2 = w2 / w2.sum() * (1 - 1e-10)
+    p2[int(g.integers(0, 4))] += 1e-10
+    p2 = np.append(p2[:3], [p2[3] - 1e-10, 1e-10, 0.0])
+    add("dist1", "dist", {"kind": "dist", "ps": p2, "shape": (3, 2), "eps_zero": 1e-12})
     ens_states = []
     for _ in range(2):
         ens_states.append({"kind": "state", "csys": "cA", "arr": qobj.vec_of(cA, qobj.rand_density(g, 2)), "flags": fl()})
@@ -1015,6 +1040,11 @@ def gen_op(rng, W, step, atol_changed):
     if W.recent_atol > 0:
         # right after a tolerance change: repeat a verdict query made earlier in this history on the same object
         W.recent_atol -= 1
+        cl = [c for c in by.get("closure", []) if e[c].meta["src"] in e]
+        if cl and rng.random() < 0.35:
+            # a projection closure created under another tolerance is called now
+            c = rng.choice(cl)
+            return {"op": "call_closure", "args": [c, e[c].meta["src"]], "p": p}
         prev = [v for v in W.verdicts if v[1] in e]
         if prev and rng.random() < 0.7:
             name, eid = rng.choice(prev)
@@ -1111,7 +1141,13 @@ def gen_op(rng, W, step, atol_changed):
         if atol_changed:
             return {"op": "atol_restore", "args": [], "p": {}}
         return {"op": "atol_set", "args": [], "p": {"atol": rng.choice([1e-6, 1e-9, 1e-3, 1e-11])}}
-    if r < 0.775:
+    if r < 0.77:
+        cl = [c for c in by.get("closure", []) if e[c].meta["src"] in e]
+        if cl and rng.random() < 0.6:
+            c = rng.choice(cl)
+            return {"op": "call_closure", "args": [c, e[c].meta["src"]], "p": p}
+        return {"op": "make_closure", "args": [rng.choice(qops)], "p": {"which": rng.choice(["ineq", "ineq", "eq", "physical"])}}
+    if r < 0.785:
         x = rng.random()
         # objects created by an earlier operation of this history — except accessor results, which ARE members of a pool
         # object (`ensemble.state(i)` returns the stored state itself)
@@ -1119,7 +1155,7 @@ def gen_op(rng, W, step, atol_changed):
         if x < 0.45 or not derived:
             return {"op": "derive_roundtrip", "args": [rng.choice(qops)], "p": p}
         return {"op": "set_zero", "args": [rng.choice(derived)], "p": p}
-    if r < 0.785:
+    if r < 0.79:
         pr = [i for i in by.get("array", []) if e[i].meta.get("role") == "prob"]
         if len(pr) >= 2:
             return {"op": "entropy_helper", "args": [rng.choice(pr), rng.choice(pr)], "p": p}
@@ -1141,6 +1177,10 @@ def gen_op(rng, W, step, atol_changed):
                 "args": [qt, rng.choice(objs)], "p": p}
     x = rng.random()
     var = [rng.uniform(-0.6, 0.6) for _ in range(24)]
+    if rng.random() < 0.5:
+        # components that lie between the tolerances the histories switch to (fluctuation truncation decides on them)
+        for _ in range(3):
+            var[rng.randrange(12)] = rng.choice([2.7e-7, -3e-10, 4e-5, 3e-12])
     if x < 0.08:
         return {"op": "qt_query", "args": [qt], "p": p}
     if x < 0.16:
@@ -1285,6 +1325,8 @@ def _exec_history(S, ops, gen, nops, stop_on_first, subst, on_case):
                     W.add(rid, "array", rs, dict(W.e[args[0]].meta))
                 elif op["op"] == "qt_empi_dists" and W.e[args[0]].meta["spec"]["qtkind"] != "qmpt":
                     W.add(rid, "data", rs, {"qt": args[0]})
+                elif op["op"] == "make_closure":
+                    W.add(rid, "closure", rs, {"src": args[0], "which": op["p"]["which"]})
                 elif op["op"] == "make_aopt":
                     W.add(rid, "aopt", rs, {"spec": op["p"]["spec"], "birth_atol": Settings.get_atol()})
             # (ii) snapshots of every operand and every earlier-derived object
